@@ -64,7 +64,10 @@ def run_deck(prop, name, deck, pre, flags=None, what=('regions', 'compo', 'valid
                 res['inconclusive'].append('%s: exception %r on an undecided path' % (name, path.value))
             continue
         try:
-            r = dr.compare(deck, path, pre, prop, flags=flags, what=what, timeout_ms=timeout_ms)
+            r = dr.compare(deck, path, pre, prop, flags=flags, what=what, timeout_ms=timeout_ms, vacuity=not res.get('vacuity_done'))
+            if r.get('vacuity'):
+                res['vacuity_done'] = True
+                res['vacuity'] = r['vacuity']
         except (ref.RefError,) as e:
             res['harness_errors'].append('%s: reference error %s' % (name, e))
             continue
